@@ -1194,6 +1194,12 @@ impl Exec {
                     if prop != "C03" {
                         self.viol(prop, &format!("invalid_block_attached:{why_invalid}"), d.clone());
                     }
+                    if why_invalid.starts_with("structural:commit_") {
+                        self.viol("C04", &format!("block_accepts_invalid_tx:{}", why_invalid.trim_start_matches("structural:")), d.clone());
+                    }
+                    if why_invalid.contains("dao_withdraw") {
+                        self.viol("C06", &format!("invalid_block_attached:{why_invalid}"), d.clone());
+                    }
                     if why_invalid.contains("pow") || why_invalid == "target" {
                         self.viol("C07", &format!("invalid_block_attached:{why_invalid}"), d);
                     }
@@ -1390,6 +1396,7 @@ impl Exec {
                 self.viol("C03", "valid_heaviest_chain_not_attached", format!("#{best_b} td {best_td} vs tip td {td}"));
                 self.viol("C06", "valid_heaviest_chain_not_attached", format!("#{best_b} td {best_td} vs tip td {td}"));
                 self.viol("C19", "valid_heaviest_chain_not_attached", format!("#{best_b} td {best_td} vs tip td {td}"));
+                self.viol("C04", "block_rejects_valid_tx:model_chain_refused", format!("#{best_b} td {best_td} vs tip td {td}"));
                 // C07: the model's blocks carry the epoch / target of the exact RFC 0020 evaluation;
                 // a refusal (e.g. TargetMismatch) means the node computed something else
                 let first_err = self.node.verdicts.lock().unwrap().iter().find_map(|(h, v)| v.as_ref().err().map(|e| (self.w.by_hash.get(h).cloned(), e.clone())));
